@@ -11,6 +11,8 @@ int main(int argc, char** argv)
     signal(SIGABRT, vh::on_signal);
     signal(SIGSEGV, vh::on_signal);
     signal(SIGFPE, vh::on_signal);
+    signal(SIGBUS, vh::on_signal);
+    signal(SIGILL, vh::on_signal);
     if (argc > 1)
     {
         vh::out().f = fopen(argv[1], "w");
